@@ -32,7 +32,7 @@ import sys
 assert sys.version_info >= (3, 0)  # Bomb out if not running Python3
 
 
-import operator, time, traceback, uuid, fnmatch, opentracing
+import operator, re, time, traceback, uuid, fnmatch, opentracing
 
 from datetime import datetime, timezone, timedelta
 from aioprometheus import Counter, Histogram
@@ -2243,11 +2243,14 @@ class StateEngine(object):
                     return next_if(variable, operator.le, value, str)
 
                 def asl_choice_StringMatches(value):
-                    # https://docs.python.org/3/library/fnmatch.html
-                    # Change the \ escape to fnmatch [seq] escape and also
-                    # escape [ to allow things like a literal [hello]
-                    value = value.replace("[", "[[]").replace("\\*", "[*]")
-                    if fnmatch.fnmatch(variable, value):
+                    # The only metacharacters are * (zero or more characters)
+                    # and the \ escape for a literal * or \, so translate
+                    # the pattern to a regex escaping everything else.
+                    regex = "".join(
+                        ".*" if token == "*" else re.escape(token[-1])
+                        for token in re.findall(r"\\[*\\]|.", value, re.S)
+                    )
+                    if isinstance(variable, str) and re.fullmatch(regex, variable, re.S):
                         return next
 
                 def asl_choice_TimestampEquals(value):
